@@ -293,6 +293,9 @@ SB_extends(SB* self, PyObject* other)
 
     implied = self->_implied;
     if (implied == NULL) {
+        /* like ``self._implied`` in Python: don't return NULL without
+           an exception set (that surfaces as a SystemError) */
+        PyErr_SetString(PyExc_AttributeError, "_implied");
         return NULL;
     }
 
